@@ -74,11 +74,13 @@ macro_rules! lab_int { ($($t:ty),*) => { $(impl Lab for $t {
 lab_int!(i8, i16, i32, i64, u8, u16, u32, u64, isize, usize);
 
 /// pool of interesting doubles; arrays of type f64p / f32p carry indices into it
-pub const POOL: [f64; 34] = [0.0, -0.0, 1.0, -1.0, 2.0, 0.5, -2.5, 3.0, 1e300, -1e300, 5e-324, f64::INFINITY, f64::NEG_INFINITY, f64::NAN, 7.25, 100.0, 1e-10, 1.0000000000000002, -7.0, 0.1,
+pub const POOL: [f64; 35] = [0.0, -0.0, 1.0, -1.0, 2.0, 0.5, -2.5, 3.0, 1e300, -1e300, 5e-324, f64::INFINITY, f64::NEG_INFINITY, f64::NAN, 7.25, 100.0, 1e-10, 1.0000000000000002, -7.0, 0.1,
     // cancellation regime, values no f32 represents exactly, the edge of exp's range (labels 20..29)
     1e-17, -1e-10, -1e-17, 1e-5, 4503599627370497.0, 0.9999999999999999, -0.5, 1.5, 1e-30, 710.0,
     // integers of magnitude >= 2^63 (exact in f64): the float bitwise operations cast through a 128-bit integer (labels 30..33)
-    9223372036854775808.0, 1180591621816922931200.0, 18446744073710600192.0, 1267650600228229401496703205376.0];
+    9223372036854775808.0, 1180591621816922931200.0, 18446744073710600192.0, 1267650600228229401496703205376.0,
+    // the largest double below one half (label 34): adding 0.5 rounds up to 1
+    0.49999999999999994];
 impl Lab for f64 {
     fn from_lab(x: i128) -> Self { x as f64 }
     fn cast_ref(v: f64) -> Self { v }
